@@ -7,5 +7,5 @@ Require Import ExtrOcamlBasic.
 Extraction "literal_ex.ml"
   LexerModel.tokenize LiteralModel.strip_items LiteralModel.literal_of_tokens
   LexerStringsSpec.quote LexerStringsSpec.quote_raw LexerStringsSpec.canon_string LexerStringsSpec.bytes_okb
-  LiteralSpec.src LiteralSpec.toks LiteralSpec.canon LiteralSpec.wfb
+  LiteralSpec.src LiteralSpec.toks LiteralSpec.canon LiteralSpec.wfb LiteralSpec.oct
   ExprTree.digits_val ExprTree.dec N.add N.mul N.eqb.
